@@ -28,6 +28,7 @@ func init() {
 			}},
 			{"rel-append-only", "relationship lists of an existing package are only appended to: the officeDocument relationship that locates the main part is never replaced or dropped", ruleRelAppendOnly},
 			{"fresh-dep/relid", "ids given to relationships added to an existing list depend on the ids already there (a constant id can take over the officeDocument relationship's id)", ruleFreshRelID},
+			{"clone-cover (package state)", "a document derived from another carries over every field of Document that decides what the package parts contain (content types, relationships, parts and any flag that gates their regeneration): a field left behind makes the derived package's structure parts disagree with its contents", filtered(ruleCloneDocument, "cloneDocument:Document.")},
 		},
 		Assumptions: append([]string{"encoding/xml escapes text and attribute values and replaces invalid characters"}, commonAssumptions...),
 	}
@@ -42,6 +43,7 @@ func init() {
 			{"clone-alias", "a rendered document does not share its relationship lists with the template (mutability-aware alias analysis of cloneDocument)", ruleCloneAliasFor("Relationships", "Document")},
 			{"rel-append-only", "relationship lists of an existing document are only appended to (shape of every store)", ruleRelAppendOnly},
 			{"alloc-scans-all", "the id allocator's scanning loop has no early exit", ruleAllocScansAll},
+			{"alloc-append-atomic", "between taking a relationship id from the allocator and adding the relationship that carries it, nothing runs that can add another relationship (which would be given the same id)", ruleAllocAppendAtomic},
 			{"part-pass/rel-keep", "every relationship and every part of an opened package is retained (what the body refers to stays resolvable)", rulePartPass},
 			{"rel-serialise-all", "the relationship parts written on save contain every relationship of the in-memory lists", ruleRelSerialiseAll},
 		},
@@ -58,6 +60,7 @@ func init() {
 			{"chardata-verbatim", "character data is stored as read (no transformation in the value's slice)", ruleCharDataVerbatim},
 			{"marshal-guard", "custom marshalers skip a field only when the field itself is absent (guard predicates cover every field)", ruleMarshalGuard},
 			{"marshal-pure", "serialising does not modify the model", ruleMarshalPure},
+			{"result-fresh", "the bytes returned by ToBytes are backed by memory of that call only (not by a buffer the document keeps and overwrites on the next save)", ruleResultFresh},
 			{"marshal-attr-unique", "hand-written marshallers add no attribute that the encoded struct's tags emit as well", ruleMarshalAttrUnique},
 			{"reader-input-only", "whether a parsed element is kept depends on the element, not on other state of the document under construction (dependence slice of the branch conditions inside the reader's element cases)", ruleReaderInputOnly},
 			{"attr-presence", "where the reader keeps an element only for a non-empty attribute, no library code builds that element with the attribute empty (regions of attr != \"\" tests vs composite literals)", ruleAttrPresence},
@@ -84,6 +87,7 @@ func init() {
 			{"rel-serialise-all", "the relationship parts written on save contain every relationship of the in-memory lists (collects-all analysis of the marshalled slice)", ruleRelSerialiseAll},
 			{"marshal-guard", "run text read from the package is written back whenever it is non-empty (custom marshalers test the field itself, not a trimmed copy)", ruleMarshalGuard},
 			{"reader-input-only", "whether parsed content is kept depends on the element read, not on other state of the document under construction", ruleReaderInputOnly},
+			{"marshal-cover (run text)", "the run marshaller writes the run's text as it is held in the model (the encoded value is the field, not a filtered copy of it)", filtered(ruleMarshalCover, "document.Run.")},
 		},
 		Assumptions: commonAssumptions,
 	}
@@ -97,6 +101,7 @@ func init() {
 			{"save-verbatim", "each part is written with exactly the bytes of the part map", ruleSaveVerbatim},
 			{"save-truncate", "the target file is created/truncated, never opened for in-place overwrite", ruleSaveTruncate},
 			{"marshal-pure", "serialising does not modify the model: Save followed by ToBytes (or the reverse) sees the same document", ruleMarshalPure},
+			{"result-fresh", "the bytes returned by ToBytes are backed by memory of that call only (not by a buffer the document keeps and overwrites on the next save)", ruleResultFresh},
 		},
 		Assumptions: commonAssumptions,
 	}
@@ -126,6 +131,7 @@ func init() {
 		Rules: []Rule{
 			{"global-state", "classification of every package-level variable by reachable writers (mutation summaries over the VTA call graph)", func(r *Run) { ruleGlobalState(r, nil) }},
 			{"clone-alias", "documents derived from one another (template rendering) share no object the library can later change", ruleCloneAliasFor()},
+			{"clone-pure", "deriving a document from another (template rendering) never writes to the source document: two goroutines rendering from one template work on distinct documents and must not meet in the shared base", ruleClonePure},
 			{"pool-escape", "nothing taken from a package-level sync.Pool is returned to callers", rulePoolEscape(pkgDoc, pkgSty, pkgMd)},
 		},
 		Assumptions: commonAssumptions,
@@ -172,6 +178,7 @@ func init() {
 			{"fresh-dep/relid", "image relationship ids depend on existing ids", ruleFreshRelIDImage},
 			{"config-pure", "image API never writes into the caller's ImageConfig/ImageSize (mutation summaries)", ruleConfigPure},
 			{"alloc-scans-all", "the relationship id allocator's scanning loop has no early exit", ruleAllocScansAll},
+			{"alloc-append-atomic", "between taking a relationship id from the allocator and adding the relationship that carries it, nothing runs that can add another relationship (which would be given the same id)", ruleAllocAppendAtomic},
 			{"counter-numeric", "the restored image counter is a numeric maximum, not a lexicographic one", ruleCounterNumeric},
 			{"counter-monotonic", "the image counter only ever increases after Open", ruleCounterMonotonic("Document")},
 			{"size-precedence", "explicit width+height is decided before the aspect-ratio flag is consulted (dominance)", ruleSizePrecedence},
@@ -190,6 +197,7 @@ func init() {
 			{"ref-flow", "reference id = relationship id", ruleRefFlowHF},
 			{"clone-alias", "rendered documents do not share header/footer reference objects with the template", ruleCloneAliasFor("SectionProperties", "HeaderFooterReference", "FooterReference")},
 			{"alloc-scans-all", "the relationship id allocator's scanning loop has no early exit", ruleAllocScansAll},
+			{"alloc-append-atomic", "between taking a relationship id from the allocator and adding the relationship that carries it, nothing runs that can add another relationship (which would be given the same id)", ruleAllocAppendAtomic},
 			{"rel-serialise-all", "every relationship of the in-memory list (the newest header/footer relationship included) is written to the relationship part on save", ruleRelSerialiseAll},
 			{"sectpr-singleton", "header/footer calls find the one section-properties element wherever it is (full search before a new one is appended)", ruleSectPrSingleton},
 			{"fresh-dep/relid", "header/footer relationship ids are computed from the ids already in the list, with one allocation scheme for all relationships of that list (a private counter next to list-scanning allocators falls behind)", ruleFreshRelID},
